@@ -148,3 +148,43 @@ def h_handle_frame(c, kind):
         c.ensure("cid_registered_for_sender", len(mine.items) == 1 and mine.items[0] is c.get(fr, "connection_id") and len(other.items) == 0)
     else:
         c.ensure("cids_untouched", len(sc.items) == 0 and len(cc.items) == 0)
+
+
+@harness("C02", "quic.buffered_packets", functions=[QS + ".handle_quic_packet"], cases=[("RETRY",), ("INITIAL",), ("RTT_1",), ("VERSION_NEG",)])
+def h_buffered(c, ptype):
+    """every buffered QUIC packet except Retry / Version Negotiation is decrypted exactly once; a Retry restarts the
+    handshake state (fresh TLS session, no decryptors, no keys) and nothing else; Initial packets register the
+    connection IDs of both sides (by direction); the buffer is emptied"""
+    if c.native:
+        return
+    isserver = c.bool("isserver")
+    dcid, scid = c.bytes("dcid", max_len=20), c.bytes("scid", max_len=20)
+    pkt = c.record("QuicPacket", packet_type=c.enum(PT, ptype), isserver=isserver, dcid=dcid, scid=scid, supported_version=c.bytes("versions", max_len=16))
+    decrypted, fresh_tls = [], []
+    c.summary_override(QS + ".decrypt_packet", lambda ctx, slf, p: decrypted.append(p))
+    c.summary_override(QS + ".handle_frame", lambda ctx, slf, f: None)
+    c.summary_override(QT + ".__init__", lambda ctx, cls: fresh_tls.append(ctx.make_obj(cls)) or fresh_tls[-1])
+    c.summary_override(QF + ".PseudoVersionNegotiationFrame.__init__", lambda ctx, cls, **k: ctx.make_obj(cls))
+    old_tls = c.opaque("tls_session_before")
+    old_decs, old_keys = {"Initial": c.opaque("d")}, {"client_initial_hp": c.bytes("hp", length=16)}
+    s = c.obj(QS, packet_buffer_quic=[pkt], tls_session=old_tls, decryptors=old_decs, keys=old_keys, hash_fun=c.opaque("h"), cipher=c.opaque("ci"),
+              key_length=16, alpn=c.opaque("alpn"), server_cids=c.new_set_of([]), client_cids=c.new_set_of([]))
+    out = c.method(s, "handle_quic_packet")
+    c.ensure("no_raise", out.exc is None, kind="raises")
+    if out.exc is not None:
+        return
+    g = lambda n: c.get(s, n)
+    c.ensure("buffer_emptied", len(g("packet_buffer_quic")) == 0)
+    c.ensure("decrypted_iff_protected_type", (decrypted == [pkt]) == (ptype not in ("RETRY", "VERSION_NEG")) and len(decrypted) <= 1)
+    if ptype == "RETRY":
+        c.ensure("retry.fresh_tls_session", len(fresh_tls) == 1 and g("tls_session") is fresh_tls[0])
+        c.ensure("retry.keys_and_decryptors_dropped", len(g("decryptors")) == 0 and len(g("keys")) == 0 and g("hash_fun") is None
+                 and g("cipher") is None and g("key_length") is None)
+    else:
+        c.ensure("handshake_state_kept", g("tls_session") is old_tls and g("decryptors") is old_decs and g("keys") is old_keys)
+    sc, cc = g("server_cids"), g("client_cids")
+    if ptype == "INITIAL":
+        mine, other = (sc, cc) if c.truth_fork(isserver) else (cc, sc)
+        c.ensure("initial.cids_registered_by_direction", len(mine.items) == 1 and mine.items[0] is scid and len(other.items) == 1 and other.items[0] is dcid)
+    else:
+        c.ensure("cids_untouched", len(sc.items) == 0 and len(cc.items) == 0)
